@@ -279,7 +279,41 @@ static int op_fscanf(int c, tok_t *a, out_t *o) { return do_scan(1, c, a, o); }
 static int op_vsscanf(int c, tok_t *a, out_t *o) { return do_scan(2, c, a, o); }
 static int op_vfscanf(int c, tok_t *a, out_t *o) { return do_scan(3, c, a, o); }
 
+/* gmp_print_scan_Z s<pfmt> s<sfmt> x : gmp_snprintf (pfmt, x), then gmp_sscanf (that text, sfmt, y)
+   -> sTEXT ret y (y == x).      gmp_print_scan_Q s<pfmt> s<sfmt> num den -> sTEXT ret ynum yden equal */
+static int print_scan(int q, int argc, tok_t *a, out_t *o) {
+  NEED(argc == (q ? 4 : 3) && a[0].kind == T_STR && a[1].kind == T_STR && a[2].kind == T_NUM && (!q || a[3].kind == T_NUM));
+  unsigned char *buf = cb_new(BIG);
+  if (!q) {
+    mpz_t x, y; mpz_init(x); tok_mpz(x, &a[2]); mpz_init_set_si(y, SENTINEL);
+    int r = gmp_snprintf((char *)buf, BIG, (char *)a[0].s, x);
+    if (r < 0 || r >= BIG) { out_err(o, "toolong"); }
+    else {
+      out_bytes(o, buf, strlen((char *)buf));
+      int k = gmp_sscanf((char *)buf, (char *)a[1].s, y);
+      out_long(o, k); out_mpz(o, y); out_long(o, mpz_cmp(x, y) == 0);
+    }
+    mpz_clear(x); mpz_clear(y);
+  } else {
+    mpq_t x, y; mpq_init(x); mpq_init(y); tok_mpz(mpq_numref(x), &a[2]); tok_mpz(mpq_denref(x), &a[3]); mpq_set_si(y, SENTINEL, 1);
+    int r = gmp_snprintf((char *)buf, BIG, (char *)a[0].s, x);
+    if (r < 0 || r >= BIG) { out_err(o, "toolong"); }
+    else {
+      out_bytes(o, buf, strlen((char *)buf));
+      int k = gmp_sscanf((char *)buf, (char *)a[1].s, y);
+      out_long(o, k); out_mpq(o, y);
+      out_long(o, mpz_cmp(mpq_numref(x), mpq_numref(y)) == 0 && mpz_cmp(mpq_denref(x), mpq_denref(y)) == 0);
+    }
+    mpq_clear(x); mpq_clear(y);
+  }
+  if (!cb_ok(buf, BIG)) out_err(o, "oob");
+  cb_free(buf); return 0;
+}
+static int op_ps_Z(int c, tok_t *a, out_t *o) { return print_scan(0, c, a, o); }
+static int op_ps_Q(int c, tok_t *a, out_t *o) { return print_scan(1, c, a, o); }
+
 const opdef_t ops_printf[] = {
+  {"gmp_print_scan_Z", op_ps_Z}, {"gmp_print_scan_Q", op_ps_Q},
   {"gmp_snprintf_Z", op_sn_Z}, {"gmp_snprintf_Q", op_sn_Q}, {"gmp_snprintf_N", op_sn_N}, {"gmp_snprintf_M", op_sn_M},
   {"gmp_snprintf", op_snprintf}, {"gmp_snprintf_mixed", op_snprintf}, {"gmp_vsnprintf", op_vsnprintf},
   {"gmp_sprintf", op_sprintf}, {"gmp_vsprintf", op_vsprintf}, {"gmp_asprintf", op_asprintf}, {"gmp_vasprintf", op_vasprintf},
